@@ -1493,3 +1493,21 @@ M("C14", "benign: suffix sized in one step", "src/decoder.c", "    maxlen++; /* 
 M("C10", "fsg reader: to-state tested against the wrong bound through a status", "src/fsg_model.c", "            if (endptr == val || j < 0 || j >= fsg->n_state) {", "            if (endptr == val || j < 0) {", "NUM.range")
 M("C10", "dict reader: a word without phones is no longer refused (seed C10-5 core)", "src/dict.c", "        if (nwd == 1) {\n            E_ERROR(\"Line %d: No pronunciation", "        if (nwd < 1) {\n            E_ERROR(\"Line %d: No pronunciation", "NUM.pron-length")
 M("C10", "benign: pronunciation refusal written as a range test", "src/dict.c", "        if (nwd == 1) {\n            E_ERROR(\"Line %d: No pronunciation", "        if (nwd < 2) {\n            E_ERROR(\"Line %d: No pronunciation", kind="benign")
+
+# ---- clauses added after the fourth seeding round --------------------------------------------
+M("C15", "endpointer_process: window dropped at segment end without the clock (seed C15-8 core)", EP, "            ep->in_speech = FALSE;\n            return pcm;", "            ep->in_speech = FALSE;\n            ep_clear(ep);\n            return pcm;", "PAIR.clock")
+M("C06", "fe_process: nothing done when no new samples are given (seed C06-8 core)", "src/fe_interface.c", "    /* Are there not enough samples to make at least 1 frame? */\n    if (*inout_nsamps + fe->num_overflow_samps < (size_t)fe->frame_size)", "    if (*inout_nsamps == 0)\n        return 0;\n    /* Are there not enough samples to make at least 1 frame? */\n    if (*inout_nsamps + fe->num_overflow_samps < (size_t)fe->frame_size)", "PAIR.I2-frames")
+M("C06", "benign: room test written the other way round", "src/fe_interface.c", "    if (nframes < 1)\n        return 0;\n\n    /* Keep track", "    if (!(nframes >= 1))\n        return 0;\n\n    /* Keep track", kind="benign")
+M("C10", "unescape: looks two bytes ahead", "src/config.c", "            switch (in[i + 1]) {\n            case '\"':\n                *ptr++ = '\"';", "            switch (in[i + 1]) {\n            case 'u':\n                if (in[i + 2] == '0') i++;\n                *ptr++ = c;\n                break;\n            case '\"':\n                *ptr++ = '\"';", "SPAN.unescape")
+M("C10", "unescape: span handed to a string primitive", "src/config.c", "            default:\n                E_WARN(\"Unsupported escape sequence \\\\%c\\n\", in[i + 1]);\n                *ptr++ = c;\n            }", "            default:\n                E_WARN(\"Unsupported escape sequence \\\\%c\\n\", in[i + 1]);\n                if (strchr(in + i, 'u') != NULL)\n                    i++;\n                *ptr++ = c;\n            }", "SPAN.unescape")
+M("C10", "benign: unescape through a position pointer", "src/config.c", "        int c = in[i];\n        if (c == '\\\\') {\n            switch (in[i + 1]) {", "        const char *pos = in + i;\n        int c = pos[0];\n        if (c == '\\\\') {\n            switch (pos[1]) {", kind="benign")
+M("C10", "align text: states sized by counting blanks (seed C10-8 core)", "src/decoder.c", "                         nwords + 1);\n    nwords = 0;", "                         (int)strlen(textbuf) / 2 + 1);\n    nwords = 0;", "TWIN.align-text")
+M("C09", "revert d75e02b: decoder_init_dict leaves d->d2p dangling", "src/decoder.c", "    dict2pid_free(d->d2p);\n    d->d2p = NULL;\n    /* Dictionary and triphone mappings (depends on acmod). */\n    /* FIXME: pass config, change arguments, implement LTS, etc. */\n    if ((d->dict = dict_init(d->config", "    dict2pid_free(d->d2p);\n    /* Dictionary and triphone mappings (depends on acmod). */\n    /* FIXME: pass config, change arguments, implement LTS, etc. */\n    if ((d->dict = dict_init(d->config", "FIELD.released")
+M("C09", "decoder_alignment: stale aligner released before the early returns (seed C09-8 core)", "src/decoder.c", "            return align->al;\n        }\n    }\n    seg = decoder_seg_iter(d);", "            return align->al;\n        }\n        search_module_free(d->align);\n    }\n    seg = decoder_seg_iter(d);", "FIELD.released")
+M("C09", "benign: released field reset at once", "src/decoder.c", "    if (d->align)\n        search_module_free(d->align);\n    d->align = state_align_search_init(", "    if (d->align) {\n        search_module_free(d->align);\n        d->align = NULL;\n    }\n    d->align = state_align_search_init(", kind="benign")
+M("C18", "cmn: text rebuilt only in a debug message (seed C18-7 core)", "src/cmn.c", "    E_INFO(\"CMN: %s\\n\", cmn_update_repr(cmn));", "    E_DEBUG(\"CMN: %s\\n\", cmn_update_repr(cmn));", "REPR")
+M("C07", "cmn_live: mean re-estimated after every block (seed C07-7 core)", "src/cmn_live.c", "    if (cmn->nframe > CMN_WIN_HWM)\n        cmn_live_shiftwin(cmn);", "    cmn_live_shiftwin(cmn);", "ORDER.cmn-after-limit")
+M("C07", "decoder_alignment: aligner runs over everything buffered (seed C07-8 core)", "src/decoder.c", "    while (d->acmod->output_frame < output_frame) {\n        if (search_module_step(d->align", "    while (d->acmod->n_feat_frame > 0) {\n        if (search_module_step(d->align", "PAIR.rewind-restore")
+M("C13", "fsg reader: vocabulary table folds case (seed C13-7 core)", "src/fsg_model.c", "vocab = hash_table_new(32, FALSE);", "vocab = hash_table_new(32, HASH_CASE_NO);", "TABLE.W2-transition-line")
+M("C03", "fsg_search_hyp: kept string returned once final (seed C03-7 core)", "src/fsg_search.c", "    bp = bpidx;\n    len = 0;\n    while (bp > 0) {", "    if (fsgs->final && search->hyp_str != NULL)\n        return search->hyp_str;\n    bp = bpidx;\n    len = 0;\n    while (bp > 0) {", "PROV.S8-no-stale-result")
+M("C17", "mdef: senone sequence size tested through a 32-bit product (seed C17-8 core)", "src/bin_mdef.c", "    if (*sseq_size < 0 || m->n_emit_state > *sseq_size / m->n_sseq) {", "    if (*sseq_size < 0 || m->n_emit_state * m->n_sseq > *sseq_size) {", "TAINT.wide-product")
